@@ -89,6 +89,17 @@ func protCall(rows [][]int, o protOpts) (ev protEvent) {
 				w[i] = float64(q) / 4
 			}
 		}
+		if protWarmUp != nil && !o.ModelFreqs {
+			// the model object is first initialised with, and used on, another alignment (its own frequencies), then
+			// initialised again for this one: a library user estimating the frequencies of each alignment in turn
+			wal := align.NewAlign(align.AMINOACIDS)
+			for i, r := range protWarmUp {
+				wal.AddSequenceChar(fmt.Sprintf("s%d", i), i2b(r), "")
+			}
+			if e := m.InitModel(wal, w); e == nil {
+				m.MLDist(wal, w)
+			}
+		}
 		if err = m.InitModel(al, w); err != nil {
 			ev.Kind, ev.Msg = "err", err.Error()
 			return
